@@ -36,8 +36,9 @@ Step(sch, inp, cfg, m, e) ==
   \* whatever happens: a small constant multiple of max(M, initial capacity)
   ELSE IF cfg.hasMax /\ Lim(cfg) < HUGE \div 4 /\ e.peak > 3 * Lim(cfg) + Slack
        THEN Fail(m, "C17: a call allocated more than a small multiple of max(limit, initial capacity)")
-  ELSE IF cfg.hasMax /\ cap1 >= 0 /\ cap1 > Lim(cfg)
-       THEN Fail(m, "C17: the buffer capacity exceeds max(limit, initial capacity)")
+  \* (the same multiple for the buffer itself: a growth policy that rounds up - doubling, say - is within the statement)
+  ELSE IF cfg.hasMax /\ Lim(cfg) < HUGE \div 4 /\ cap1 >= 0 /\ cap1 > 3 * Lim(cfg)
+       THEN Fail(m, "C17: the buffer capacity exceeds a small multiple of max(limit, initial capacity)")
   \* within the limit, payload missing: at most the declared size
   ELSE IF e.res = "err" /\ e.ekind = "eof" /\ e.has_size /\ WToNat(e.size) < HUGE \div 4 /\ e.peak > 3 * Max(WToNat(e.size), Max(cfg.cap0, 16)) + Slack
        THEN Fail(m, "C17: an element with a missing payload cost more than its declared size")
